@@ -31,10 +31,25 @@ type verifOutcome struct {
 	msgSym    bool // the message is the symbolic one (subject to the wire findings)
 }
 
-func verifHandlerOutcome() verifOutcome {
-	switch zv.Choose("handler-outcome", 6) {
-	case 0:
-		return verifOutcome{isSuccess: true}
+func verifHandlerOutcome(symbolicStatus bool) verifOutcome {
+	if !symbolicStatus {
+		switch zv.Choose("handler-outcome", 6) {
+		case 0:
+			return verifOutcome{isSuccess: true}
+		case 1:
+			sp := &spb.Status{Code: int32(codes.NotFound), Message: "not here", Details: []*anypb.Any{{TypeUrl: "t", Value: []byte{1}}}}
+			return verifOutcome{err: status.FromProto(sp).Err(), wantCode: codes.NotFound, wantMsg: "not here", nDetails: 1}
+		case 2:
+			return verifOutcome{err: errors.New("boom"), wantCode: codes.Unknown, wantMsg: "boom"}
+		case 3:
+			return verifOutcome{err: context.Canceled, wantCode: codes.Canceled, wantMsg: context.Canceled.Error()}
+		case 4:
+			return verifOutcome{err: context.DeadlineExceeded, wantCode: codes.DeadlineExceeded, wantMsg: context.DeadlineExceeded.Error()}
+		default:
+			return verifOutcome{err: io.EOF, wantCode: codes.Unknown, wantMsg: "EOF"}
+		}
+	}
+	switch 1 {
 	case 1:
 		// an arbitrary status: every 32-bit code, every message up to the cap, 0..1 details
 		code := codes.Code(zv.Uint32("status-code"))
@@ -49,15 +64,8 @@ func verifHandlerOutcome() verifOutcome {
 			sp.Details = []*anypb.Any{{TypeUrl: "t", Value: []byte{1}}}
 		}
 		return verifOutcome{err: status.FromProto(sp).Err(), wantCode: code, wantMsg: msg, nDetails: nd, msgSym: true}
-	case 2:
-		return verifOutcome{err: errors.New("boom"), wantCode: codes.Unknown, wantMsg: "boom"}
-	case 3:
-		return verifOutcome{err: context.Canceled, wantCode: codes.Canceled, wantMsg: context.Canceled.Error()}
-	case 4:
-		return verifOutcome{err: context.DeadlineExceeded, wantCode: codes.DeadlineExceeded, wantMsg: context.DeadlineExceeded.Error()}
-	default:
-		return verifOutcome{err: io.EOF, wantCode: codes.Unknown, wantMsg: "EOF"}
 	}
+	return verifOutcome{isSuccess: true}
 }
 
 func verifAlteredByHeaderWire(s string) bool {
@@ -79,9 +87,16 @@ func verifAlteredByHeaderWire(s string) bool {
 func Verif_C02_Status() {
 	overHTTP := zv.Bool("over-http")
 	kind := []string{"U", "R", "C", "S"}[zv.Choose("kind", 4)]
-	nBefore := zv.Choose("responses-before-the-end", 2)
-	headerFirst := zv.Bool("client-asks-for-headers-first")
-	out := verifHandlerOutcome()
+	// Either the status is symbolic (every code, every message) under the plain
+	// script, or the script varies with a fixed set of outcomes: the sum, not the
+	// product, of the two spaces.
+	symbolicStatus := zv.Choose("focus-on-status-values", 2) == 1
+	nBefore, headerFirst := 0, false
+	if !symbolicStatus {
+		nBefore = zv.Choose("responses-before-the-end", 2)
+		headerFirst = zv.Bool("client-asks-for-headers-first")
+	}
+	out := verifHandlerOutcome(symbolicStatus)
 	hooks := &zzfix.Hooks{}
 	hooks.Unary = func(tag string, ctx context.Context, req *zzfix.Msg) (*zzfix.Msg, error) {
 		if out.err != nil {
